@@ -969,6 +969,41 @@ func runC07(r *Rng, tier string, n int) {
 			}
 		}
 	}
+	// an included file that opens but cannot be read (a directory): a plain I/O error, not a syntax
+	// error, inside the sub parser: still the first problem, still sticky, no records after it (oracle only)
+	for _, text := range []string{"$INCLUDE sub\nafter A 10.0.0.9\n", "first A 10.0.0.1\n$INCLUDE sub x.\nafter A 10.0.0.9\n",
+		"$INCLUDE d.zone\nafter A 10.0.0.9\n"} {
+		c := baseCfg(z.Lit(text))
+		c.File = "z/main.zone"
+		c.DefTTL = 3600
+		c.Inc, c.HasFS = true, false
+		c.Files = map[string]z.Recipe{"z/sub/b.zone": z.Lit("b A 10.1.1.1\n"), "z/d.zone": z.Lit("in A 10.2.2.2\n$INCLUDE sub\nin2 A 10.2.2.3\n")}
+		o := z.Run(c, 3)
+		stat["include_unreadable_checked"]++
+		// (not checkOutcome: a read error is an I/O error, the clause about *ParseError positions is about syntax errors)
+		if o.TimedOut {
+			Viol("C07/terminates", "parsing did not finish within the deadline", describe(c))
+		}
+		if o.Panicked {
+			Viol("C07/no-panic", "ZoneParser panicked: "+o.PanicVal, describe(c))
+		}
+		if o.LateRecs > 0 {
+			Viol("C07/sticky/record-after-false", fmt.Sprintf("%d record(s) returned by Next after it had returned false", o.LateRecs), describe(c))
+		}
+		if o.ErrChanged {
+			Viol("C07/sticky/err-changed", "Err() changed after further calls of Next", describe(c))
+		}
+		if !o.Skipped && !o.TimedOut && !o.Panicked {
+			if o.Err == nil {
+				Viol("C07/include-read-error/not-reported", "an included file that cannot be read was not reported as an error", describe(c))
+			}
+			for _, rc := range o.Recs {
+				if strings.HasPrefix(rc.Name, "after.") || strings.HasPrefix(rc.Name, "in2.") {
+					Viol("C07/include-read-error/records-after", "records after the failed $INCLUDE were returned: "+rc.Name, describe(c))
+				}
+			}
+		}
+	}
 	// random include-related texts against a small file set
 	incVocab := []string{"$INCLUDE", "$include", "a.zone", "b.zone", "self.zone", "x/../a.zone", "/a.zone", "sub.", "@", "\n", "\n", " ", " ", "\t", "(", ")", "\"", ";c", "a 5 A 1.2.3.4\n", "$ORIGIN o.\n", "$TTL 9\n"}
 	for i := 0; i < 150*mult; i++ {
